@@ -33,8 +33,10 @@ def make_tree(root, nodes):
             os.makedirs(os.path.dirname(path), exist_ok=True)
             open(path, "w").close()
         elif n["k"] == "l":
-            # the target is given from the tree's root; links only occur at the root of the trees
-            os.symlink("/".join(txt(x) for x in n["t"]), path)
+            # the target is given from the tree's root: make it relative to the link's directory
+            target = os.path.join(root, *[txt(x) for x in n["t"]])
+            os.makedirs(os.path.dirname(path), exist_ok=True)
+            os.symlink(os.path.relpath(target, os.path.dirname(path)), path)
 
 
 def program(v, root):
@@ -138,7 +140,7 @@ def run(ck):
     ck.cov["exhaustive"] = True
     ck.cov["rule"] = ("one vector per distinct state of ShGlobFS (TLC BFS): tree x glob word x option set; non-trivial = "
                       "the word has an unquoted metacharacter, globbing is on and at least one path matched")
-    ck.assumptions += ["bash 5.2.15 (LC_ALL=C) as the reference shell", "trees of depth <= 3 over 13 names; links only at the root"]
+    ck.assumptions += ["bash 5.2.15 (LC_ALL=C) as the reference shell", "hand-made trees of depth <= 4; symbolic links at the top and inside directories"]
     evaluate(ck, vecs, h)
 
 
